@@ -58,11 +58,70 @@ Definition new_obj (h : heap) (w : option nat) (fl : nat) : res (heap * nat) :=
     Ok (alloc_obj h1 (mk_cell (cp_shape fs) wl fl))
   else Err.
 
+(* the dimension test of cp_mode_dot reads `shape[mode]` from what _validate_cp_tensor returns: for a CPTensor OBJECT that is the
+   CACHED shape attribute (never re-validated), and T.dot then needs the factor's real row count: both must agree with the operand.
+   A cache made stale by item assignment (setitem_h below; C03's known finding wrapper_setitem_stale_cache_cp) makes the call raise. *)
+Definition cache_okb (h : heap) (r : href) (mode : nat) : bool :=
+  match r with
+  | RObject o => (mode <? length (c_shape (obj h o))) &&
+                 Nat.eqb (nth mode (c_shape (obj h o)) 0) (length (nth mode (read_fs h (lst h (c_fs (obj h o)))) []))
+  | RTuple _ _ => true
+  end.
+Definition guard (h : heap) (r : href) (mode : nat) : bool := operand_okb (deref h r) && cache_okb h r mode.
+(* CPTensor.__setitem__: cp[0] = weights / cp[1] = factors rebinds the attribute and leaves .shape / .rank as they were *)
+Definition setitem_h (h : heap) (o : nat) (index : nat) (value : nat) : res heap :=
+  match index with
+  | 0 => Ok (set_obj h o (mk_cell (c_shape (obj h o)) value (c_fs (obj h o))))
+  | 1 => Ok (set_obj h o (mk_cell (c_shape (obj h o)) (c_w (obj h o)) value))
+  | _ => Err
+  end.
+Definition cache_consistent (h : heap) (o : nat) : Prop := c_shape (obj h o) = cp_shape (read_fs h (lst h (c_fs (obj h o)))).
+
+(* ------------------------------------------------------------------ entry points that build every array of their answer afresh
+   cp_normalize (factor / scales, weights * scales), cp_flip_sign (factors = list(factors); every slot is rebound to a product;
+   weights = abs(weights)), cp_permute_factors (cp_copy, then fancy indexing) and CPTensor.cp_copy: a fresh weights array, one fresh
+   array per factor, a fresh list, a fresh validated object.  The operand is only read. *)
+Definition alloc_arrs (h : heap) (vals : list (mat F)) : heap * list nat :=
+  (mk_heap (h_arr h ++ vals) (h_lst h) (h_obj h), seq (length (h_arr h)) (length vals)).
+Definition fresh_result (h : heap) (w' : list F) (fs' : list (mat F)) : res (heap * nat) :=
+  let (h1, wl) := alloc_arr h [w'] in
+  let (h2, ls) := alloc_arrs h1 fs' in
+  let (h3, fl) := alloc_lst h2 ls in
+  new_obj h3 (Some wl) fl.
+Definition cp_normalize_h (tape : list (list F)) (h : heap) (r : href) : res (heap * nat) :=
+  if operand_okb (deref h r) then
+    let (w', fs') := cp_normalize Op tape (operand_w Op (deref h r)) (operand_fs (deref h r)) in fresh_result h w' fs'
+  else Err.
+Definition cp_flip_sign_h (summ : list F -> F) (h : heap) (r : href) (mode : nat) : res (heap * nat) :=
+  if operand_okb (deref h r) then
+    match cp_flip_sign Op summ (operand_w Op (deref h r)) (operand_fs (deref h r)) mode with
+    | Ok (w', fs') => fresh_result h w' fs'
+    | Err => Err
+    end
+  else Err.
+Definition cp_permute_h (p : list nat) (h : heap) (r : href) : res (heap * nat) :=
+  match cp_permute Op p (operand_w Op (deref h r)) (operand_fs (deref h r)) with
+  | Ok (w', fs') => fresh_result h w' fs'
+  | Err => Err
+  end.
+Definition cp_copy_h (h : heap) (o : nat) : res (heap * nat) :=
+  fresh_result h (operand_w Op (deref h (RObject o))) (operand_fs (deref h (RObject o))).
+(* CPTensor.normalize(inplace) since /repo 9ada0b3:  weights, factors = cp_normalize(self);
+   inplace: self.weights, self.factors = weights, factors; return self   (the shape attribute is kept; the temporary object that
+            cp_normalize built stays behind);   not inplace: return CPTensor((weights, factors)) -- one more validated object *)
+Definition cp_normalize_method_h (tape : list (list F)) (h : heap) (o : nat) (inplace : bool) : res (heap * nat) :=
+  match cp_normalize_h tape h (RObject o) with
+  | Err => Err
+  | Ok (h', o') =>
+      if inplace then Ok (set_obj h' o (mk_cell (c_shape (obj h' o)) (c_w (obj h' o')) (c_fs (obj h' o'))), o)
+      else new_obj h' (Some (c_w (obj h' o'))) (c_fs (obj h' o'))
+  end.
+
 Definition is_contract (x : operand (F:=F)) (keep_dim : bool) : bool := match x with OpVec _ => negb keep_dim | OpMat _ => false end.
 
-Definition cp_mode_dot_h (h : heap) (r : href) (copy : bool) (x : operand (F:=F)) (mode : nat) (keep_dim : bool) : res (heap * nat) :=
+Definition cp_mode_dot_h_before (h : heap) (r : href) (copy : bool) (x : operand (F:=F)) (mode : nat) (keep_dim : bool) : res (heap * nat) :=
   let opnd := deref h r in
-  if operand_okb opnd then
+  if guard h r mode then
     match cp_mode_dot Op (operand_w Op opnd) (operand_fs opnd) x mode keep_dim with
     | Err => Err
     | Ok (_, fs') =>
@@ -85,12 +144,12 @@ Definition cp_mode_dot_h (h : heap) (r : href) (copy : bool) (x : operand (F:=F)
     end
   else Err.
 
-(* the repaired tree (candidate patch C04_cp_mode_dot_inplace_alias): `factors[mode] = factors[mode] * factor` -- the product
-   goes to a FRESH array and only the list cell is updated; everything else as above.  Which of the two variants the current
-   source has is read off its syntax tree on every run (harness: inplace_from_source). *)
-Definition cp_mode_dot_h_fresh (h : heap) (r : href) (copy : bool) (x : operand (F:=F)) (mode : nat) (keep_dim : bool) : res (heap * nat) :=
+(* THE CURRENT TREE (since /repo 93a737c): `factors[mode] = factors[mode] * factor` -- the product goes to a FRESH array and only the
+   list cell is updated; everything else as in cp_mode_dot_h_before.  Which of the two variants the source has is read off its syntax
+   tree on every run (harness: inplace_from_source); the theorems of Props/C04.v are about this one. *)
+Definition cp_mode_dot_h (h : heap) (r : href) (copy : bool) (x : operand (F:=F)) (mode : nat) (keep_dim : bool) : res (heap * nat) :=
   let opnd := deref h r in
-  if operand_okb opnd then
+  if guard h r mode then
     match cp_mode_dot Op (operand_w Op opnd) (operand_fs opnd) x mode keep_dim with
     | Err => Err
     | Ok (_, fs') =>
@@ -112,7 +171,7 @@ Definition cp_mode_dot_h_fresh (h : heap) (r : href) (copy : bool) (x : operand 
         end
     end
   else Err.
-Definition cp_mode_dot_h_src (inplace : bool) := if inplace then cp_mode_dot_h else cp_mode_dot_h_fresh.
+Definition cp_mode_dot_h_src (inplace : bool) := if inplace then cp_mode_dot_h_before else cp_mode_dot_h.
 
 (* ------------------------------------------------------------------ ownership vocabulary *)
 (* the locations an object owns *)
